@@ -591,8 +591,9 @@ class VM:
                     iv = fr.cell(ix).v
                     n = concrete_int(iv)
                     if n is None:
-                        raise Unsupported('symbolic index')
-                    path = path + [('index', n)]
+                        path = path + [('symindex', iv)]      # readable when the elements are integers (see _proj)
+                    else:
+                        path = path + [('index', n)]
                 else:
                     path = path + [('index', int(ix.split(' ')[0]))]
         return cell, path
@@ -625,6 +626,17 @@ class VM:
             if isinstance(v, SymEnum):
                 raise Unsupported('downcast of a symbolic enum (discriminant not read first)')
             raise Unsupported('downcast of %r' % (v,))
+        if st[0] == 'symindex':
+            # a read at a symbolic position of a sequence of integers: an if-then-else chain over the elements (MIR asserts
+            # the index is in bounds before the access)
+            items = v.items if isinstance(v, (Seq, Tup)) else None
+            if not items or not all(isinstance(x, BV) and x.width() == items[0].width() for x in items):
+                raise Unsupported('symbolic index into %r' % (v,))
+            ix = st[1].v
+            acc = items[-1].v
+            for k in range(len(items) - 2, -1, -1):
+                acc = If(ix == BitVecVal(k, ix.size()), items[k].v, acc)
+            return BV(acc, items[0].signed)
         if st[0] == 'index':
             if isinstance(v, Seq):
                 return v.items[st[1]]
@@ -662,6 +674,8 @@ class VM:
             v.items[st[1]] = val
         elif st[0] == 'downcast':
             raise Unsupported('write through downcast')
+        else:
+            raise Unsupported('write through %s' % st[0])
 
     # -------------------------------------------------------------------------------- operands and rvalues
     def operand(self, m, fr, o):
